@@ -42,8 +42,12 @@ impl DownloadManifest {
         // Validate header
         header.validate()?;
 
-        let mut entries = Vec::with_capacity(header.entry_count() as usize);
-        let mut tags = Vec::with_capacity(header.tag_count() as usize);
+        // Counts come from the (untrusted) header: never reserve more than the
+        // remaining input can hold (entry >= key + 40-bit size + priority = 22
+        // bytes, tag >= NUL + type = 3 bytes).
+        let remaining = data.len().saturating_sub(cursor.position() as usize);
+        let mut entries = Vec::with_capacity((header.entry_count() as usize).min(remaining / 22));
+        let mut tags = Vec::with_capacity((header.tag_count() as usize).min(remaining / 3));
 
         // All versions: Parse entries first
         for _ in 0..header.entry_count() {
